@@ -486,6 +486,23 @@ def inline_locals(fn, expr: ast.expr, depth: int = 6) -> ast.expr:
     return T(depth).visit(clone_expr(expr))
 
 
+def _exit_paths(st: ast.If, prefix=()) -> List[List[Tuple[str, bool]]]:
+    """Conditions (conjunctions of (test, polarity)) under which control leaves the enclosing block from inside the `if`
+    statement st: a block that *ends* in return / continue / raise / break, at any nesting depth of if statements."""
+    out = []
+    for pol, blk in ((True, st.body), (False, st.orelse)):
+        if not blk:
+            continue
+        here = list(prefix) + [(unparse(st.test), pol)]
+        if isinstance(blk[-1], (ast.Return, ast.Continue, ast.Raise, ast.Break)):
+            out.append(here)
+            continue
+        for x in blk:
+            if isinstance(x, ast.If):
+                out += _exit_paths(x, tuple(here))
+    return out
+
+
 def guards_of(node, fn, include_exits: bool = True) -> List[Tuple[str, bool]]:
     """Guards under which `node` executes inside fn: (test source, polarity) for enclosing
     if/elif/else, ternaries and while tests, plus negations of earlier sibling
@@ -516,6 +533,10 @@ def guards_of(node, fn, include_exits: bool = True) -> List[Tuple[str, bool]]:
                     if isinstance(st, ast.If) and not st.orelse and st.body and \
                             isinstance(st.body[-1], (ast.Return, ast.Continue, ast.Raise, ast.Break)):
                         out.append((unparse(st.test), False))
+                    elif isinstance(st, ast.If):
+                        # an exit nested deeper in an earlier `if` (`if A: if not B: continue`): not (A and not B)
+                        for path in _exit_paths(st):
+                            out.append((" and ".join(f"({t})" if pol else f"not ({t})" for t, pol in path), False))
         cur = p
     out.reverse()
     return out
